@@ -26,6 +26,7 @@ from vlib import proof_coverage
 HERE = Path(__file__).resolve().parent
 sys.path.insert(0, str(HERE))
 import gen_progs  # noqa: E402
+import histo  # noqa: E402
 import spec_paths  # noqa: E402
 
 LEVEL = "proof"
@@ -403,6 +404,9 @@ def run(ctx) -> int:
                    {"program": dead_dev[0], "expected": "accepted", "observed": dead_dev[1], "replay": replay_cmd(dead_dev[0])})
 
     T["compare_and_spec"] = round(time.time() - t0, 1)
+    gen_sources = [p["src"] for p in progs if p["group"] != "corpus"]
+    hist = histo.histogram(gen_sources)
+    below = sorted(k for k, v in hist.items() if v["percent"] < 5.0)
     cov = proof_coverage(
         info, "cd /verif/coq && make -f Makefile.C08 C08/Props.vo",
         ["Coq 8.16.1 kernel", "C09's theorems (imported, re-checked in this build)",
@@ -417,6 +421,8 @@ def run(ctx) -> int:
         programs=len(recs),
         correspondence=stats, specification=spec_stats, samples=samples,
         phase_seconds=T,
+        construct_histogram={"over": f"{len(gen_sources)} generated programs (corpus excluded)", "constructs": hist,
+                             "below_5_percent": below},
         cases={"plain": n_plain, "const": n_const, "corpus": len([p for p in progs if p["group"] == "corpus"])},
     )
     return ctx.finish(LEVEL, cov, info.get("axioms", []))
